@@ -31,6 +31,7 @@ def gen_case(rng, tier):
     prof["views"] = rng.random() < 0.3  # dependencies through subviews of one allocation
     prof["nested_views"] = rng.random() < 0.5  # ... and through views of views
     prof["streams"] = rng.random() < 0.15  # streaming regions: XDMA extension kernels on the DM core, snax_alu on the compute core
+    prof["stream_forms"] = rng.random() < 0.5  # ... unscheduled, scheduled or after layout resolution (dart.operation / schedule / access_pattern)
     prof["multiblock"] = rng.random() < 0.1  # several blocks (cf.cond_br): a barrier in one block does not cover the next
     prof["op_reads"] = rng.choice([0, 0, 0, 0, 0.5])  # ops executed by every core that read a local buffer
     if prof["op_reads"]:
